@@ -83,6 +83,38 @@ func randStates(r *rng) []task.State {
 	return out
 }
 
+// conflict-heavy mode: one promise, one callback id that is also a task id, so that TASK_INSERT_ALL (which has
+// no ON CONFLICT clause) raises UNIQUE errors at every position of a transaction
+func conflictCommand(r *rng, stat map[string]int) *t_aio.Command {
+	T := func() int64 { return int64(r.intn(12)) }
+	var c *t_aio.Command
+	switch r.intn(9) {
+	case 0:
+		cp := randCreatePromise(r)
+		cp.Id = "a"
+		c = &t_aio.Command{Kind: t_aio.CreatePromise, CreatePromise: cp}
+	case 1, 2:
+		c = &t_aio.Command{Kind: t_aio.CreateCallback, CreateCallback: &t_aio.CreateCallbackCommand{
+			Id: "z", PromiseId: "a", Recv: []byte(recvOf(r)), Mesg: randMesg(r), Timeout: T(), CreatedOn: T()}}
+	case 3:
+		ct := randCreateTask(r)
+		ct.Id = "z"
+		c = &t_aio.Command{Kind: t_aio.CreateTask, CreateTask: ct}
+	case 4, 5:
+		c = &t_aio.Command{Kind: t_aio.CreateTasks, CreateTasks: &t_aio.CreateTasksCommand{PromiseId: "a", CreatedOn: T()}}
+	case 6:
+		c = &t_aio.Command{Kind: t_aio.AcquireLock, AcquireLock: &t_aio.AcquireLockCommand{
+			ResourceId: pick(r, []string{"r1", "r2"}), ExecutionId: pick(r, []string{"e1", "e2"}), ProcessId: pick(r, procs), Ttl: int64(r.intn(4)), ExpiresAt: T()}}
+	case 7:
+		cp := randCreatePromise(r)
+		c = &t_aio.Command{Kind: t_aio.CreatePromise, CreatePromise: cp}
+	default:
+		c = &t_aio.Command{Kind: t_aio.ReadTask, ReadTask: &t_aio.ReadTaskCommand{Id: "z"}}
+	}
+	stat["cmd:"+c.Kind.String()]++
+	return c
+}
+
 func randCommand(r *rng, stat map[string]int) *t_aio.Command {
 	T := func() int64 { return int64(r.intn(12)) }
 	var c *t_aio.Command
@@ -189,9 +221,10 @@ func randCreateTask(r *rng) *t_aio.CreateTaskCommand {
 		State: st, Ttl: r.intn(4), ExpiresAt: int64(r.intn(12)), CreatedOn: int64(r.intn(12))}
 }
 
-func runStoreTrace(seed uint64, dir string, steps int) *storeTrace {
+func runStoreTrace(seed uint64, dir string, steps int) (tr *storeTrace) {
 	r := &rng{s: seed}
-	tr := &storeTrace{Family: "store", Seed: seed, Stats: map[string]int{}}
+	conflict := seed%4 == 3
+	tr = &storeTrace{Family: "store", Seed: seed, Stats: map[string]int{}}
 	path := filepath.Join(dir, fmt.Sprintf("s%d.db", seed))
 	_ = os.Remove(path)
 	defer func() {
@@ -226,7 +259,11 @@ func runStoreTrace(seed uint64, dir string, steps int) *storeTrace {
 			ncmd := 1 + r.intn(3)
 			cmds := []*t_aio.Command{}
 			for j := 0; j < ncmd; j++ {
-				cmds = append(cmds, randCommand(r, tr.Stats))
+				if conflict {
+					cmds = append(cmds, conflictCommand(r, tr.Stats))
+				} else {
+					cmds = append(cmds, randCommand(r, tr.Stats))
+				}
 			}
 			tx := &t_aio.Transaction{Commands: cmds}
 			sqes = append(sqes, &bus.SQE[t_aio.Submission, t_aio.Completion]{Id: "x", Submission: &t_aio.Submission{Kind: t_aio.Store, Tags: map[string]string{"id": "x"}, Store: &t_aio.StoreSubmission{Transaction: tx}}, Callback: func(*t_aio.Completion, error) {}})
